@@ -4496,8 +4496,13 @@ class ParameterizedMetaclass(type):
         _inherited = []
         for cls in classlist(mcs)[:-1][::-1]:
             if not hasattr(cls, '_param__parameters'):
-                continue
-            for dep in cls.param._depends['watch']:
+                # A plain (non-Parameterized) base such as a mixin: its
+                # watching methods have not been recorded anywhere yet
+                inherited_deps = [(name,) for name, m in vars(cls).items()
+                                  if getattr(m, '_dinfo', {}).get('watch')]
+            else:
+                inherited_deps = cls.param._depends['watch']
+            for dep in inherited_deps:
                 method = getattr(mcs, dep[0], None)
                 dinfo = getattr(method, '_dinfo', {'watch': False})
                 if (not any(dep[0] == w[0] for w in _watch+_inherited)
